@@ -702,6 +702,29 @@ def check_into(rep, prop, tier, rng, prove=True):
         rep.coverage.update(evaluations=0, distinct_nontrivial=0, samples=[], rule="harness did not build")
         return
     nontriv, ncorr = decide(prop, rep, cases, impl, model, spec, P)
+    if prop in ("C19", "C16", "C06"):
+        # the same cases in a process whose environment names locales that are not installed (a locale forwarded into a
+        # minimal container) and a locale with other case / digit rules: the result is a function of the input line alone
+        sample = corpus + [cases[i] for i in sorted(rng.sample(range(len(cases)), min(2500, len(cases))))]
+        base = dict(zip(cases, impl))
+        for envname, extra in (("LC_ALL=en_US.UTF-8", {"LC_ALL": "en_US.UTF-8"}), ("LANG=tr_TR.ISO-8859-9", {"LANG": "tr_TR.ISO-8859-9", "LC_ALL": ""})):
+            env = dict(os.environ)
+            env.update(extra)
+            if not env.get("LC_ALL"):
+                env.pop("LC_ALL", None)
+            try:
+                other = vlib.run_lines(registry.build_leaf(), sample, os.path.join(vlib.BUILD, "work", prop), "env-impl", env=env)
+            except Exception as e:       # noqa
+                rep.broken("correspondence:%s:leaf-driver-under-%s" % (prop, envname), str(e)[-500:])
+                continue
+            bad = [(c, o) for c, o in zip(sample, other) if base.get(c) != o]
+            dist.add("environment:%s" % envname, len(sample))
+            if bad:
+                c, o = bad[0]
+                rep.violation("environment/result-depends-on-the-process-environment",
+                              "under %s the implementation answers %r where it answers %r otherwise (%d of %d cases differ)" % (
+                                  envname, o[:120], base.get(c, "")[:120], len(bad), len(sample)),
+                              dict(kind="leaf", case=c, environment=envname, implementation=o, specification=base.get(c)))
     idx = sorted(rng.sample(range(len(cases)), min(6, len(cases))))
     rep.coverage.update(
         evaluations=len(cases), distinct_nontrivial=nontriv, correspondence_disagreements=ncorr,
@@ -732,6 +755,16 @@ def replay(prop, path):
         print("replay file names no concrete input:", json.dumps(r.get("no_longer_checks"))[:2000])
         return 1
     impl, model, spec = evaluate(prop, cases, "replay")
+    if r.get("environment"):
+        # a case that fails only in a particular process environment: the reference is the answer in the default one
+        env = dict(os.environ)
+        k, _, v = r["environment"].partition("=")
+        env[k] = v
+        if k == "LANG":
+            env.pop("LC_ALL", None)
+        spec = impl
+        impl = vlib.run_lines(registry.build_leaf(), cases, os.path.join(vlib.BUILD, "work", prop), "replay-env", env=env)
+        print("environment:    ", r["environment"])
     rc = 0
     for c, i, m, s in zip(cases, impl, model, spec):
         print("case:           ", c)
